@@ -1509,6 +1509,40 @@ for _pid, _rule in (("C10", "I10"), ("C03", "M1")):
         _sub(TEBDB, '                pt[2] ^ self._phys_es[site]\n', '                sys_in, sys_out = 2, 3\n                pt[sys_in] ^ self._phys_es[site]\n'),
         _sub(TEBDB, '                self._phys_es[site] = pt[3]\n', '                self._phys_es[site] = pt[sys_out]\n')))
 
+# ------------------------------------------------------------------ integrand helpers (C12 L5 / L8, C11 K8)
+_ETA_T0 = "            def integrand(w):\n                return self._spectral_density(w) / w ** 2 * (\n                    (np.exp(-1j * w * tau) - 1) + 1j * w * tau)\n"
+_ETA_HEAD = "        # convention is tau.imag < 0\n        if self.temperature == 0.0:\n            check_true(\n                matsubara is False,\n                'Matsubara correlations only defined for temperature > 0')\n" + _ETA_T0
+_ETA_HELPER = "        # convention is tau.imag < 0\n        def vacuum_integrand(w):\n            return self._spectral_density(w) / w ** 2 * (\n                (np.exp(-1j * w * tau) - 1) + 1j * w * tau)\n\n        if self.temperature == 0.0:\n            check_true(\n                matsubara is False,\n                'Matsubara correlations only defined for temperature > 0')\n            integrand = vacuum_integrand\n"
+for _pid, _rule in (("C12", "L8"), ("C11", "K8")):
+    ok(_pid, "zero-temperature eta kernel extracted into a helper used at T = 0 only", _sub(BC, _ETA_HEAD, _ETA_HELPER))
+    brk(_pid, "zero-temperature eta kernel extracted into a helper and reused beyond the overflow guard", _rule, _multi(
+        _sub(BC, _ETA_HEAD, _ETA_HELPER),
+        _sub(BC, _OV_ETA, "                else:\n                    inte = vacuum_integrand(w)\n")))
+
+# ------------------------------------------------------------------ closure memo in a dict on self (C15 U7, C02 S7, C07 V9, C20 A7)
+_TD_RETURN = '                return first_step, second_step\n        return propagators\n\n    @property\n    def hamiltonian(self) -> Callable[[float], ndarray]:'
+_TD_CTOR = '        super().__init__(tmp_dimension, name, description)\n\n    def liouvillian(self, t: float) -> ndarray:\n        r"""\n        Returns the Liouvillian super-operator :math:`\\mathcal{L}(t)` with'
+def _td_store(key):
+    return _multi(
+        _sub(SYS, _TD_CTOR, '        self._propagators = {}\n' + _TD_CTOR),
+        _sub(SYS, _TD_RETURN, '                return first_step, second_step\n        computed = self._propagators.setdefault(\n            ' + key + ', {})\n        def stored_propagators(step: int):\n            """Look up (or create) the system propagators for `step`. """\n            if step not in computed:\n                computed[step] = propagators(step)\n            return computed[step]\n        return stored_propagators\n\n    @property\n    def hamiltonian(self) -> Callable[[float], ndarray]:'))
+for _pid, _rule in (("C15", "U7"), ("C02", "S7"), ("C07", "V9"), ("C20", "A7")):
+    brk(_pid, "time dependent propagators kept in a dict on the system keyed by (dt, tolerances) and step", _rule,
+        _td_store('(dt, subdiv_limit, epsrel)'))
+    ok(_pid, "time dependent propagators kept in a dict on the system keyed by (dt, start_time, tolerances) and step",
+       _td_store('(dt, start_time, subdiv_limit, epsrel)'))
+
+# ------------------------------------------------------------------ C11 K10: spectral reconstruction with the adjoint
+_UP = '        first_step = expm(-1j*self._hamiltonian*dt/2.0)\n        second_step = expm(-1j*self._hamiltonian*dt/2.0)\n        def propagators(step: int):\n            """Create the system propagators (first and second half) for\n            the time step `step`  """\n            return first_step, second_step\n'
+def _spectral(adj):
+    return _multi(
+        _sub(SYS, 'from scipy.linalg import expm\n', 'from scipy.linalg import expm, eigh\n'),
+        _sub(SYS, _UP, '        energies, states = eigh(self._hamiltonian)\n        half_step = (states * np.exp(-1j*energies*dt/2.0)) @ ' + adj + '\n        def propagators(step: int):\n            """Create the system propagators (first and second half) for\n            the time step `step`  """\n            return half_step, half_step\n'))
+brk("C11", "unitary half-step propagator rebuilt from the spectrum with the plain transpose of the eigenvectors", "K10",
+    _spectral('states.T'))
+ok("C11", "unitary half-step propagator rebuilt from the spectrum with the conjugate transpose of the eigenvectors",
+   _spectral('states.conj().T'))
+
 for _pid in ["C01", "C02", "C03", "C04", "C05", "C06", "C07", "C08", "C09", "C10", "C11", "C12", "C13",
              "C14", "C15", "C16", "C17", "C18", "C19", "C20"]:
     ok(_pid, "whole package re-printed with ast.unparse (layout, comments, line numbers)", _reformat_all)
